@@ -463,10 +463,14 @@ class Engine:
         self.queries = 0
         self.solver_s = 0.0
         self.decisions = 0
-        self.realized: dict[int, int] = {}
+        self.realized: dict[int, tuple] = {}
         self.pending_violations: list[dict] = []
         self.deadline = None
         self.abort = None  # sticky control exception (asyncio swallows BaseException in callbacks)
+        self.infeasible_paths = 0
+        self.recheck_every = 0  # every n-th one-sided branch verdict is re-checked with a fresh solver
+        self.rechecked = 0
+        self._onesided = 0
 
     def _stop(self, exc):
         if self.abort is None:
@@ -504,6 +508,29 @@ class Engine:
                 raise self._stop(PathEnd("path condition unsatisfiable"))
             self._model = self.solver.model()
         return self._model
+
+    def final_model(self):
+        """Model of the complete path condition at path end, or None if the path is infeasible.
+
+        The incremental solver occasionally reports an infeasible branch side as feasible (seen with z3 5.1.0 after
+        thousands of push/pop cycles): such a path ends with an unsatisfiable path condition.  An 'unsat' here is
+        confirmed by a fresh, non-incremental solver before the path is dropped; a disagreement is inconclusive."""
+        self._model = None
+        r = self._check()
+        if r == z3.sat:
+            self._model = self.solver.model()
+            return self._model
+        s2 = z3.Solver()
+        for a in self.solver.assertions():
+            s2.add(a)
+        t0 = time.perf_counter()
+        r2 = s2.check()
+        self.solver_s += time.perf_counter() - t0
+        self.queries += 1
+        if r2 == z3.unsat:
+            self.infeasible_paths += 1
+            return None
+        raise self._stop(Inconclusive("incremental and fresh solver disagree at path end (%s vs %s)" % (r, r2)))
 
     def _feasible(self, cond):
         """Is pc ∧ cond satisfiable?  Returns model or None."""
@@ -543,6 +570,20 @@ class Engine:
         if self._feasible(other) is not None:
             self.decisions += 1
             self.work.append(self.trace + [not side])
+        elif self.recheck_every:
+            self._onesided += 1
+            if self._onesided % self.recheck_every == 0:
+                s2 = z3.Solver()
+                for a in self.solver.assertions():
+                    s2.add(a)
+                s2.add(other)
+                t0 = time.perf_counter()
+                r2 = s2.check()
+                self.solver_s += time.perf_counter() - t0
+                self.queries += 1
+                self.rechecked += 1
+                if r2 != z3.unsat:
+                    raise self._stop(Inconclusive("fresh solver contradicts an 'unsat' branch verdict (%s)" % r2))
         self.trace.append(side)
         self.solver.add(cond if side else z3.Not(cond))
         return side
@@ -550,11 +591,11 @@ class Engine:
     def realize(self, x: SymInt) -> int:
         key = x.t.get_id()
         if key in self.realized:
-            return self.realized[key]
+            return self.realized[key][1]
         t = z3.simplify(x.t)
         if z3.is_bv_value(t):
             v = t.as_signed_long()
-            self.realized[key] = v
+            self.realized[key] = (x.t, v)  # keep the term alive: z3 re-uses the ids of freed terms
             return v
         while True:
             i = len(self.trace)
@@ -568,7 +609,7 @@ class Engine:
                 self.solver.add(cond if take else z3.Not(cond))
                 self._model = None
                 if take:
-                    self.realized[key] = v
+                    self.realized[key] = (x.t, v)
                     return v
                 continue
             v = self.model().eval(t, model_completion=True).as_signed_long()
@@ -578,7 +619,7 @@ class Engine:
                 self.work.append(self.trace + [("r", v, False)])
             self.trace.append(("r", v, True))
             self.solver.add(cond)
-            self.realized[key] = v
+            self.realized[key] = (x.t, v)
             return v
 
     # -- assumptions / assertions
